@@ -53,7 +53,7 @@ def mutation(draw, spec, serial=0):
         kinds += ['cast', 'dimension']
         if op.get('cast'):
             kinds += ['cast-clear']
-    kinds += ['hdr-seq'] if draw(st.integers(0, 5)) == 0 else []
+    kinds += ['hdr-seq']
     if not kinds:
         return {'kind': 'none', 'op': j}
     kind = draw(st.sampled_from(kinds))
@@ -252,10 +252,12 @@ class C14(Property):
                  "unrelated-write operations over 1-2 DLISFile objects whose values and names come from a small shared "
                  "pool; after every write the bytes are compared with those produced by a fresh process (pristine "
                  "zygote fork, cross-checked with a real subprocess) for the net specification")
-    rule = ("cases: histories of 3-10 steps (build, write with drawn options, write again, mutate an attribute value / "
-            "object name / origin reference, high-compatibility write of an unrelated file, write with only part of the "
-            "data dict) over 1-2 specifications drawn from pools {0, -0.0, 0.0, False, 1, 1.0, True, 2, 2.0}, 6 strings, "
-            "3 names; every write is judged; non-trivial = >= 2 writes and a pool collision or a mutation before the "
+    rule = ("cases: histories of 3-10 steps (build; write with drawn chunk sizes and row window; write again; mutate an "
+            "attribute value / object name / origin reference / channel data (same or other dtype and width) / cast "
+            "dtype (set, cleared) / channel DIMENSION / header sequence number; high-compatibility write of an "
+            "unrelated file; write with only part of the data dict) over 1-2 specifications drawn from pools {0, -0.0, "
+            "0.0, False, 1, 1.0, True, 2, 2.0}, 8 strings (two of 128 and 200 characters), 3 names, named and unnamed "
+            "sets; every write is judged against a fresh process; non-trivial = >= 2 writes or a mutation before the "
             "judged write; distinct by history digest")
     assumptions = ("origins pin FILE-SET-NUMBER and CREATION-TIME (the two documented sources of nondeterminism)",
                    "the zygote never calls the code under test, so a forked child is a fresh process")
